@@ -86,17 +86,19 @@ def parse_client_stream_tolerant(wire):
     pkts = []
     pos = 0
     data = bytearray(wire)
+    frozen = bytes(data)          # re-made only when a byte is patched (F1), not once per packet
     while pos < len(data):
         try:
-            pkt, end = parse_client_packet(bytes(data), pos)
+            pkt, end = parse_client_packet(frozen, pos)
         except Incomplete:
             return pkts, bytes(data[pos:]), None
         except Malformed as e:
             b0 = data[pos]
             if b0 in (0x8A, 0xAA):
                 data[pos] = b0 & 0xF7
+                frozen = bytes(data)
                 try:
-                    pkt, end = parse_client_packet(bytes(data), pos)
+                    pkt, end = parse_client_packet(frozen, pos)
                 except Incomplete:
                     return pkts, bytes(wire[pos:]), None
                 except Malformed as e2:
